@@ -558,5 +558,531 @@ theorem reach_of_runSched (ts : List K.Th) : ∀ (s s' : St), Reach s → runSch
     | none => simp [hs] at h
     | some s1 => simp only [hs] at h; exact ih s1 s' (Reach.step t hr hs) h
 
+/-! ## C12.E.G — any commands, GPU port -/
+namespace G
+
+theorem set_all {α} (P : α → Prop) (l : List α) (j : Nat) (a' : α) (hall : ∀ x ∈ l, P x) (ha : P a') :
+    ∀ x ∈ l.set j a', P x := by
+  intro x hx
+  rcases List.mem_or_eq_of_mem_set hx with h | h
+  · exact hall x h
+  · exact h ▸ ha
+
+theorem notifyAll_aok (q : Nat) (l : List K.App) (hall : ∀ x ∈ l, K.AppOk x) : ∀ x ∈ K.notifyAll q l, K.AppOk x := by
+  intro x hx
+  obtain ⟨y, hy, rfl⟩ := List.mem_map.mp hx
+  exact K.notify1_ok q y (hall y hy)
+
+/-- the per-thread part of `K.Inv` is preserved by an application step whatever the queues hold -/
+theorem stepApp_aok (k k1 : K.St) (j : Nat) (a : K.App) (hj : k.apps[j]? = some a)
+    (hall : ∀ x ∈ k.apps, K.AppOk x) (h : K.stepApp k j a = some k1) : ∀ x ∈ k1.apps, K.AppOk x := by
+  have hok := hall a (K.mem_of_get _ _ _ hj)
+  obtain ⟨pc, script, q, sub, tok, ret⟩ := a
+  cases pc
+  case idle =>
+    cases script with
+    | nil => simp [K.stepApp] at h
+    | cons op rest =>
+      cases op with
+      | enq q' =>
+        simp only [K.stepApp] at h
+        injection h with h; subst h
+        exact set_all _ _ _ _ hall ⟨by simp [K.inDrain], K.okScript_tail _ _ hok.ok, fun _ => K.okScript_enq_ne _ _ hok.ok⟩
+      | drain q' =>
+        simp only [K.stepApp] at h
+        injection h with h; subst h
+        exact set_all _ _ _ _ hall ⟨fun _ => rfl, K.okScript_tail _ _ hok.ok, by simp⟩
+  case enqN =>
+    simp only [K.stepApp] at h
+    injection h with h; subst h
+    exact notifyAll_aok _ _ (set_all _ _ _ _ hall ⟨by simp [K.inDrain], hok.ok, by simp⟩)
+  case waiting => simp [K.stepApp] at h
+  all_goals
+    have hsub : sub = true := hok.subd (by simp [K.inDrain])
+    simp only [K.stepApp] at h
+    repeat (split at h)
+    all_goals first
+      | (injection h with h; subst h
+         exact set_all _ _ _ _ hall ⟨by simp [K.inDrain, hsub], hok.ok, by simp⟩)
+      | cases h
+
+theorem notifyChanged_will (i : Nat) (qs : List K.Qu) (ws : List W.Drv.Q) (apps : List K.App)
+    (h : ∃ b ∈ apps, K.willSignal b) : ∃ b ∈ notifyChanged i qs ws apps, K.willSignal b := by
+  induction qs generalizing i ws apps with
+  | nil => simpa [notifyChanged] using h
+  | cons q qs ih =>
+    cases ws with
+    | nil => simpa [notifyChanged] using h
+    | cons w ws =>
+      simp only [notifyChanged]
+      apply ih
+      split
+      · exact notifyAll_will _ _ h
+      · exact h
+
+theorem notifyChanged_aok (i : Nat) (qs : List K.Qu) (ws : List W.Drv.Q) (apps : List K.App)
+    (h : ∀ x ∈ apps, K.AppOk x) : ∀ x ∈ notifyChanged i qs ws apps, K.AppOk x := by
+  induction qs generalizing i ws apps with
+  | nil => simpa [notifyChanged] using h
+  | cons q qs ih =>
+    cases ws with
+    | nil => simpa [notifyChanged] using h
+    | cons w ws =>
+      simp only [notifyChanged]
+      apply ih
+      split
+      · exact notifyAll_aok _ _ h
+      · exact h
+
+/-- the engine outside the tick event: event flag and queues untouched -/
+theorem eng_other (k k1 : K.St) (hn : ¬ (k.e = .loop ∧ k.evt = true)) (ht : K.isTickPc k.e = false)
+    (h : K.step k .eng = some k1) : k1.evt = k.evt ∧ k1.qs = k.qs ∧ k1.apps = k.apps := by
+  cases he : k.e <;> simp only [K.step, he] at h
+  case deq i => simp [he, K.isTickPc] at ht
+  case notify i => simp [he, K.isTickPc] at ht
+  case loop =>
+    have hev : k.evt = false := by
+      cases hv : k.evt with
+      | false => rfl
+      | true => exact absurd ⟨he, hv⟩ hn
+    simp only [hev] at h
+    injection h with h; subst h; exact ⟨hev.symm ▸ rfl, rfl, rfl⟩
+  all_goals (repeat (split at h))
+  all_goals first
+    | (injection h with h; subst h; exact ⟨rfl, rfl, rfl⟩)
+    | cases h
+
+structure GInv (s : St) : Prop where
+  aok : ∀ a ∈ s.k.apps, K.AppOk a
+  link : s.owed = true → (∃ a ∈ s.k.apps, K.willSignal a) ∨ s.k.r = .tick
+
+theorem ginv_step (kind : Nat → W.Drv.Cmd) (inCap outCap : Nat) {s s' : St} {t : Th} (hi : GInv s)
+    (h : step kind inCap outCap s t = some s') : GInv s' := by
+  cases t with
+  | app j =>
+    simp only [step] at h
+    cases ha : s.k.apps[j]? with
+    | none => simp [ha] at h
+    | some a =>
+      simp only [ha] at h
+      cases hk : K.step s.k (.app j) with
+      | none => simp [hk] at h
+      | some k1 =>
+        simp [hk] at h
+        have hk' : K.stepApp s.k j a = some k1 := by simpa [K.step, ha] using hk
+        have haok := stepApp_aok s.k k1 j a ha hi.aok hk'
+        have hok := hi.aok a (K.mem_of_get _ _ _ ha)
+        by_cases hen : isEnq a = true
+        · simp only [hen, if_true] at h; subst h
+          exact ⟨haok, fun _ => stepApp_link s.k k1 j a ha hok hk' (Or.inl hen)⟩
+        · simp only [hen] at h; subst h
+          exact ⟨haok, fun ho => stepApp_link s.k k1 j a ha hok hk' (Or.inr (hi.link ho))⟩
+  | async =>
+    simp only [step] at h
+    cases hk : K.step s.k .async with
+    | none => simp [hk] at h
+    | some k1 =>
+      simp [hk] at h; subst h
+      cases hr' : s.k.r with
+      | idle => simp [K.step, hr'] at hk
+      | tick =>
+        simp only [K.step, hr'] at hk
+        split at hk
+        · cases hk
+        · injection hk with hk; subst hk
+          exact ⟨hi.aok, fun ho => by simp at ho⟩
+      | chkFlag =>
+        simp only [K.step, hr'] at hk
+        split at hk <;>
+        · injection hk with hk; subst hk
+          refine ⟨hi.aok, fun ho => ?_⟩
+          have ho' : s.owed = true := by simpa [hr'] using ho
+          rcases hi.link ho' with h1 | h1
+          · exact Or.inl h1
+          · rw [hr'] at h1; cases h1
+  | eng =>
+    simp only [step] at h
+    split at h
+    · injection h with h; subst h
+      refine ⟨notifyChanged_aok _ _ _ _ hi.aok, fun ho => ?_⟩
+      rcases hi.link ho with h1 | h1
+      · exact Or.inl (notifyChanged_will _ _ _ _ h1)
+      · exact Or.inr h1
+    · split at h
+      · cases h
+      · cases hk : K.step s.k .eng with
+        | none => simp [hk] at h
+        | some k1 =>
+          simp [hk] at h; subst h
+          obtain ⟨h1, h2⟩ := eng_link s.k k1 hk
+          rename_i hn ht
+          obtain ⟨_, _, h5⟩ := eng_other s.k k1 hn (by simpa using ht) hk
+          refine ⟨by simpa [h5] using hi.aok, fun ho => ?_⟩
+          rcases hi.link ho with hw | hw
+          · exact Or.inl (h2 hw)
+          · exact Or.inr (h1.trans hw)
+  | deliver m =>
+    simp only [step] at h
+    split at h
+    · injection h with h; subst h; exact ⟨hi.aok, hi.link⟩
+    · cases h
+  | retrieve =>
+    simp only [step] at h
+    split at h
+    · cases h
+    · injection h with h; subst h; exact ⟨hi.aok, hi.link⟩
+
+theorem ginv_reach {kind : Nat → W.Drv.Cmd} {inCap outCap : Nat} {s : St} (h : Reach kind inCap outCap s) : GInv s := by
+  induction h with
+  | init scripts nq h =>
+    exact ⟨(K.inv_init scripts nq h).aok, fun ho => by simp [init] at ho⟩
+  | step t _ hs ih => exact ginv_step _ _ _ ih hs
+
+/-- **every step is at most one event of `W.step`** over the stages of `Driver.Tick` (any commands) -/
+theorem step_w (kind : Nat → W.Drv.Cmd) (inCap outCap : Nat) {s s' : St} {t : Th}
+    (h : step kind inCap outCap s t = some s') :
+    sysOf s' = sysOf s ∨ ∃ ev, sysOf s' = W.step inCap outCap (W.Drv.stages outCap) (sysOf s) ev := by
+  cases t with
+  | app j =>
+    simp only [step] at h
+    cases ha : s.k.apps[j]? with
+    | none => simp [ha] at h
+    | some a =>
+      simp only [ha] at h
+      cases hk : K.step s.k (.app j) with
+      | none => simp [hk] at h
+      | some k1 =>
+        simp [hk] at h
+        have hk' : K.stepApp s.k j a = some k1 := by simpa [K.step, ha] using hk
+        obtain ⟨hev, _, _⟩ := stepApp_shape _ _ _ _ hk'
+        by_cases hen : isEnq a = true
+        · simp only [hen, if_true] at h; subst h
+          exact Or.inr ⟨.enq (W.Drv.enqCmd (enqTarget a) (kind s.k.nextId)), by simp [sysOf, W.step, hev]⟩
+        · simp only [hen] at h; subst h
+          exact Or.inl (by simp [sysOf, hev])
+  | async =>
+    simp only [step] at h
+    cases hk : K.step s.k .async with
+    | none => simp [hk] at h
+    | some k1 =>
+      simp [hk] at h; subst h
+      cases hr' : s.k.r with
+      | idle => simp [K.step, hr'] at hk
+      | tick =>
+        simp only [K.step, hr'] at hk
+        split at hk
+        · cases hk
+        · injection hk with hk; subst hk
+          exact Or.inr ⟨.kick, by simp [sysOf, W.step]⟩
+      | chkFlag =>
+        simp only [K.step, hr'] at hk
+        split at hk <;>
+        · injection hk with hk; subst hk
+          exact Or.inl (by simp [sysOf])
+  | eng =>
+    simp only [step] at h
+    split at h
+    · rename_i hc
+      injection h with h; subst h
+      exact Or.inr ⟨.tick, by simp [sysOf, W.step, hc.2]⟩
+    · split at h
+      · cases h
+      · cases hk : K.step s.k .eng with
+        | none => simp [hk] at h
+        | some k1 =>
+          simp [hk] at h; subst h
+          rename_i hn ht
+          obtain ⟨h3, _, _⟩ := eng_other s.k k1 hn (by simpa using ht) hk
+          exact Or.inl (by simp [sysOf, h3])
+  | deliver m =>
+    simp only [step] at h
+    split at h
+    · rename_i hc
+      injection h with h; subst h
+      exact Or.inr ⟨.deliver m, by simp [sysOf, W.step, hc]⟩
+    · cases h
+  | retrieve =>
+    simp only [step] at h
+    split at h
+    · cases h
+    · rename_i x rest hout
+      injection h with h; subst h
+      exact Or.inr ⟨.retrieve, by simp [sysOf, W.step, hout]⟩
+
+theorem winv_reach {kind : Nat → W.Drv.Cmd} {inCap outCap : Nat} {s : St} (h : Reach kind inCap outCap s) :
+    W.WInv (W.Drv.work outCap) (sysOf s) := by
+  induction h with
+  | init scripts nq h =>
+    intro hw
+    exfalso
+    rcases hw with hw | ⟨q, hq, hs⟩ | ⟨hw, _⟩
+    · simp [sysOf, init] at hw
+    · simp only [sysOf, init, List.mem_replicate] at hq
+      obtain ⟨_, rfl⟩ := hq
+      simp [W.Drv.startable] at hs
+    · simp [sysOf, init] at hw
+  | step t _ hs ih =>
+    rcases step_w _ _ _ hs with he | ⟨ev, he⟩
+    · rw [he]; exact ih
+    · rw [he]; exact W.winv_step inCap outCap _ _ (W.Drv.tickHyps outCap) _ ev ih
+
+/-! ### the id queues of the protocol part mirror the component's queues -/
+
+/-- a stage of `Tick` never adds a command to a queue -/
+abbrev Shr (a b : W.Drv.Q) : Prop := b.cmds.length ≤ a.cmds.length
+
+inductive ShrL : List W.Drv.Q → List W.Drv.Q → Prop
+  | nil : ShrL [] []
+  | cons {a b : W.Drv.Q} {l1 l2 : List W.Drv.Q} : Shr a b → ShrL l1 l2 → ShrL (a :: l1) (b :: l2)
+
+theorem shr_refl (ws : List W.Drv.Q) : ShrL ws ws := by
+  induction ws with
+  | nil => exact .nil
+  | cons w ws ih => exact .cons (Nat.le_refl _) ih
+
+theorem shr_trans {a b c : List W.Drv.Q} (h1 : ShrL a b) (h2 : ShrL b c) : ShrL a c := by
+  induction h1 generalizing c with
+  | nil => cases h2; exact .nil
+  | cons hab _ ih =>
+    cases h2 with
+    | cons hbc h2 => exact .cons (Nat.le_trans hbc hab) (ih h2)
+
+theorem shr_updAt (f : W.Drv.Q → W.Drv.Q) (hf : ∀ q, Shr q (f q)) (i : Nat) (ws : List W.Drv.Q) :
+    ShrL ws (W.Drv.updAt f i ws) := by
+  induction ws generalizing i with
+  | nil => rw [show W.Drv.updAt f i [] = [] by cases i <;> rfl]; exact .nil
+  | cons w ws ih =>
+    cases i with
+    | zero => exact .cons (hf w) (shr_refl ws)
+    | succ i => exact .cons (Nat.le_refl _) (ih i)
+
+theorem shr_retQ (q : W.Drv.Q) : Shr q (W.Drv.retQ q) := by
+  unfold W.Drv.retQ Shr
+  split
+  · split
+    · simp
+    · exact Nat.le_refl _
+  · exact Nat.le_refl _
+
+theorem shr_procQ (i : Nat) (q : W.Drv.Q) : Shr q (W.Drv.procQ i q).1 := by
+  unfold W.Drv.procQ Shr
+  cases hc : q.cmds with
+  | nil => simp [hc]
+  | cons c cs =>
+    cases hr : q.running with
+    | true => simp [hc]
+    | false =>
+      cases c with
+      | noop => simp
+      | kern n => cases n <;> simp [hc]
+
+theorem shr_procAll (i : Nat) (ws : List W.Drv.Q) : ShrL ws (W.Drv.procAll i ws).1 := by
+  induction ws generalizing i with
+  | nil => exact .nil
+  | cons w ws ih => exact .cons (shr_procQ i w) (ih (i + 1))
+
+theorem tick_shr (outCap : Nat) (c : W.Drv.C) :
+    ShrL c.d.qs (W.runStages (W.Drv.stages outCap) c).1.d.qs := by
+  have h1 : ∀ c : W.Drv.C, (W.Drv.sendToGPUs outCap c).1.d.qs = c.d.qs := by
+    intro c; unfold W.Drv.sendToGPUs; split
+    · rfl
+    · split <;> rfl
+  have h2 : ∀ c : W.Drv.C, (W.Drv.mwTick c).1.d.qs = c.d.qs := by
+    intro c; unfold W.Drv.mwTick; split <;> rfl
+  have h3 : ∀ c : W.Drv.C, ShrL c.d.qs (W.Drv.processReturnReq c).1.d.qs := by
+    intro c; unfold W.Drv.processReturnReq; split
+    · exact shr_refl _
+    · exact shr_updAt _ shr_retQ _ _
+  have h4 : ∀ c : W.Drv.C, ShrL c.d.qs (W.Drv.processNewCommand c).1.d.qs := by
+    intro c; exact shr_procAll 0 _
+  simp only [W.runStages, W.Drv.stages]
+  have a := h3 (W.Drv.mwTick (W.Drv.sendToGPUs outCap c).1).1
+  have b := h4 (W.Drv.processReturnReq (W.Drv.mwTick (W.Drv.sendToGPUs outCap c).1).1).1
+  rw [h2, h1] at a
+  exact shr_trans a b
+
+theorem deqQu_len (q : K.Qu) : (K.deqQu q).cmds.length = q.cmds.length - 1 := by
+  unfold K.deqQu; cases h : q.cmds <;> simp [h]
+
+theorem repeat_deq_len (n : Nat) (q : K.Qu) : (Nat.repeat K.deqQu n q).cmds.length = q.cmds.length - n := by
+  induction n with
+  | zero => simp [Nat.repeat]
+  | succ n ih => simp only [Nat.repeat, deqQu_len, ih]; omega
+
+theorem sync_tick {ws ws' : List W.Drv.Q} (hs : ShrL ws ws') : ∀ (qs : List K.Qu),
+    qs.map (fun q => q.cmds.length) = ws.map (fun q => q.cmds.length) →
+    (syncQs qs ws').map (fun q => q.cmds.length) = ws'.map (fun q => q.cmds.length) := by
+  induction hs with
+  | nil => intro qs h; cases qs <;> simp [syncQs] at h ⊢
+  | cons hab _ ih =>
+    intro qs h
+    cases qs with
+    | nil => simp at h
+    | cons q qs =>
+      simp only [List.map_cons, List.cons.injEq] at h
+      simp only [syncQs, List.zipWith_cons_cons, List.map_cons, List.cons.injEq]
+      refine ⟨?_, ih qs h.2⟩
+      simp only [syncQ, repeat_deq_len]
+      have := h.1
+      simp only [Shr] at hab
+      omega
+
+theorem sync_enq (id i : Nat) (c : W.Drv.Cmd) (qs : List K.Qu) (ws : List W.Drv.Q)
+    (h : qs.map (fun q => q.cmds.length) = ws.map (fun q => q.cmds.length)) :
+    (K.updQ (K.enqQu id) i qs).map (fun q => q.cmds.length) =
+      (W.Drv.updAt (fun q => { q with cmds := q.cmds ++ [c] }) i ws).map (fun q => q.cmds.length) := by
+  induction qs generalizing ws i with
+  | nil => cases ws <;> simp [K.updQ, W.Drv.updAt] at h ⊢
+  | cons q qs ih =>
+    cases ws with
+    | nil => simp at h
+    | cons w ws =>
+      simp only [List.map_cons, List.cons.injEq] at h
+      cases i with
+      | zero => simp [K.updQ, W.Drv.updAt, K.enqQu, h.1, h.2]
+      | succ i => simp [K.updQ, W.Drv.updAt, h.1, ih i ws h.2]
+
+theorem stepApp_enq_target (k k1 : K.St) (j : Nat) (a : K.App) (hen : isEnq a = true)
+    (h : K.stepApp k j a = some k1) : k1.qs = K.updQ (K.enqQu k.nextId) (enqTarget a) k.qs := by
+  obtain ⟨pc, script, q, sub, tok, ret⟩ := a
+  cases pc <;> first | cases hen | skip
+  cases script with
+  | nil => cases hen
+  | cons op rest =>
+    cases op with
+    | drain q' => cases hen
+    | enq q' =>
+      simp only [K.stepApp] at h
+      injection h with h; subst h
+      rfl
+
+theorem sync_step (kind : Nat → W.Drv.Cmd) (inCap outCap : Nat) {s s' : St} {t : Th} (hi : Sync s)
+    (h : step kind inCap outCap s t = some s') : Sync s' := by
+  unfold Sync at hi ⊢
+  cases t with
+  | app j =>
+    simp only [step] at h
+    cases ha : s.k.apps[j]? with
+    | none => simp [ha] at h
+    | some a =>
+      simp only [ha] at h
+      cases hk : K.step s.k (.app j) with
+      | none => simp [hk] at h
+      | some k1 =>
+        simp [hk] at h
+        have hk' : K.stepApp s.k j a = some k1 := by simpa [K.step, ha] using hk
+        by_cases hen : isEnq a = true
+        · simp only [hen, if_true] at h; subst h
+          simp only [stepApp_enq_target _ _ _ _ hen hk', W.Drv.enqCmd]
+          exact sync_enq _ _ _ _ _ hi
+        · simp only [hen] at h; subst h
+          obtain ⟨_, _, hq⟩ := stepApp_shape _ _ _ _ hk'
+          rcases hq with ⟨h1, _⟩ | ⟨_, hq⟩
+          · exact absurd h1 hen
+          · simpa [hq] using hi
+  | async =>
+    simp only [step] at h
+    cases hk : K.step s.k .async with
+    | none => simp [hk] at h
+    | some k1 =>
+      simp [hk] at h; subst h
+      have : k1.qs = s.k.qs := by
+        cases hr' : s.k.r <;> simp only [K.step, hr'] at hk
+        · cases hk
+        · split at hk
+          · cases hk
+          · injection hk with hk; subst hk; rfl
+        · split at hk <;> (injection hk with hk; subst hk; rfl)
+      simpa [this] using hi
+  | eng =>
+    simp only [step] at h
+    split at h
+    · injection h with h; subst h
+      exact sync_tick (tick_shr outCap s.core) _ hi
+    · split at h
+      · cases h
+      · cases hk : K.step s.k .eng with
+        | none => simp [hk] at h
+        | some k1 =>
+          simp [hk] at h; subst h
+          rename_i hn ht
+          obtain ⟨_, h4, _⟩ := eng_other s.k k1 hn (by simpa using ht) hk
+          simpa [h4] using hi
+  | deliver m =>
+    simp only [step] at h
+    split at h
+    · injection h with h; subst h; exact hi
+    · cases h
+  | retrieve =>
+    simp only [step] at h
+    split at h
+    · cases h
+    · injection h with h; subst h; exact hi
+
+theorem sync_reach {kind : Nat → W.Drv.Cmd} {inCap outCap : Nat} {s : St} (h : Reach kind inCap outCap s) : Sync s := by
+  induction h with
+  | init scripts nq h => simp [Sync, init, K.init]
+  | step t _ hs ih => exact sync_step _ _ _ ih hs
+
+theorem notify1_returned (q : Nat) (y : K.App) : (K.notify1 q y).returned = y.returned := by
+  unfold K.notify1; split
+  · split <;> rfl
+  · rfl
+
+/-- the step that increments `returned` is the emptiness test of `DrainCommandQueue` finding the id
+    queue empty -/
+theorem stepApp_returned (k k1 : K.St) (j : Nat) (a a' : K.App) (hj : k.apps[j]? = some a)
+    (h : K.stepApp k j a = some k1) (ha' : k1.apps[j]? = some a') (hret : a'.returned = a.returned + 1) :
+    K.cmdsOf k a.q = [] := by
+  have hlt := K.lt_of_get _ _ _ hj
+  have hself : ∀ (b : K.App), (k.apps.set j b)[j]? = some a' → b.returned = a.returned → False := by
+    intro b hb hr
+    rw [List.getElem?_set_self hlt] at hb; injection hb with hb; subst hb; omega
+  obtain ⟨pc, script, q, sub, tok, ret⟩ := a
+  cases pc
+  case idle =>
+    cases script with
+    | nil => simp [K.stepApp] at h
+    | cons op rest =>
+      cases op <;>
+      · simp only [K.stepApp] at h
+        injection h with h; subst h
+        exact (hself _ ha' rfl).elim
+  case enqN =>
+    simp only [K.stepApp] at h
+    injection h with h; subst h
+    simp only [K.notifyAll, List.getElem?_map, List.getElem?_set_self hlt, Option.map_some] at ha'
+    injection ha' with ha'; subst ha'
+    rw [notify1_returned] at hret
+    simp at hret
+  case chk =>
+    simp only [K.stepApp] at h
+    split at h
+    · rename_i hc; exact hc
+    · injection h with h; subst h
+      exact (hself _ ha' rfl).elim
+  case waiting => simp [K.stepApp] at h
+  all_goals
+    simp only [K.stepApp] at h
+    repeat (split at h)
+    all_goals first
+      | (injection h with h; subst h; exact (hself _ ha' rfl).elim)
+      | cases h
+
+theorem sync_empty (s : St) (hs : Sync s) (q : Nat) (hc : K.cmdsOf s.k q = []) (w : W.Drv.Q)
+    (hw : s.core.d.qs[q]? = some w) : w.cmds = [] := by
+  unfold Sync at hs
+  have h1 : (s.k.qs.map (fun q => q.cmds.length))[q]? = (s.core.d.qs.map (fun q => q.cmds.length))[q]? := by rw [hs]
+  simp only [List.getElem?_map, hw, Option.map_some] at h1
+  cases hx : s.k.qs[q]? with
+  | none => simp [hx] at h1
+  | some x =>
+    simp only [hx, Option.map_some, Option.some.injEq] at h1
+    have : x.cmds = [] := by simpa [K.cmdsOf, K.cmdsAt, hx] using hc
+    rw [this] at h1
+    exact List.eq_nil_of_length_eq_zero h1.symm
+
+end G
+
 end E
 end C12
